@@ -1,6 +1,7 @@
 """Client for probe/psrv.c (line protocol).  A server death (ASan/UBSan abort, signal) is
 reported as ProbeCrash carrying the request that was being processed and the sanitizer text."""
 import os
+import select
 import subprocess
 
 from . import runner
@@ -25,10 +26,17 @@ def hx(b):
     return b.hex() if b else "-"
 
 
+class ProbeTimeout(Exception):
+    def __init__(self, req):
+        Exception.__init__(self, "probe request exceeded its time budget: %r" % (req[:300],))
+        self.req = req
+
+
 class Probe:
-    def __init__(self, path):
+    def __init__(self, path, timeout=20.0):
         self.path = path
         self.p = None
+        self.timeout = timeout
 
     def _start(self):
         env = {"ASAN_OPTIONS": runner.ASAN_OPTIONS, "UBSAN_OPTIONS": runner.UBSAN_OPTIONS, "PATH": "/usr/bin:/bin"}
@@ -40,6 +48,12 @@ class Probe:
         try:
             self.p.stdin.write(req.encode("ascii") + b"\n")
             self.p.stdin.flush()
+            rl, _, _ = select.select([self.p.stdout], [], [], self.timeout)
+            if not rl:
+                self.p.kill()
+                self.p.wait()
+                self.p = None
+                raise ProbeTimeout(req)
             line = self.p.stdout.readline()
         except BrokenPipeError:
             line = b""
